@@ -16,7 +16,7 @@ pub struct Step {
 
 const SAFE: &[&str] = &[
     "promote-int-long", "promote-int-float", "promote-int-double", "promote-long-float", "promote-long-double", "promote-float-double",
-    "add-field-with-default", "remove-field", "reorder-fields", "add-union-branch", "add-enum-symbol", "wrap-in-union",
+    "add-field-with-default", "remove-field", "reorder-fields", "alias-naming-another-writer-field", "add-union-branch", "add-enum-symbol", "wrap-in-union",
 ];
 
 struct Ev<'a, 'c, 'd> {
@@ -190,6 +190,23 @@ impl<'a, 'c, 'd> Ev<'a, 'c, 'd> {
                     let mut rev = fields.clone();
                     rev.reverse();
                     out.push(("reorder-fields", SNode { ty: SType::Record(named.clone(), rev), ..n.clone() }));
+                    // a reader field that also lists ANOTHER writer field's name as an alias: the
+                    // field's own name takes precedence, so nothing changes for the reader
+                    let i = self.c.pick(fields.len());
+                    let j = (i + 1 + self.c.pick(fields.len() - 1)) % fields.len();
+                    let mut al = fields.clone();
+                    let other = al[j].name.clone();
+                    // both must be fields of the writer (not added or renamed by an earlier step):
+                    // only then does the reader field's own name match first
+                    let from_writer = |n: &str| !n.starts_with("added") && !n.starts_with("renamed");
+                    if from_writer(&al[i].name) && from_writer(&other) && !al[i].aliases.contains(&other) {
+                        al[i].aliases.push(other);
+                        // the other field is dropped from the reader half of the time
+                        if self.c.bool() {
+                            al.remove(j);
+                        }
+                        out.push(("alias-naming-another-writer-field", SNode { ty: SType::Record(named.clone(), al), ..n.clone() }));
+                    }
                 }
             }
             _ => {}
